@@ -65,7 +65,7 @@ def jobs(tier, seed):
           if panel != 'P1' and len(sym) > 1 and (tier == 'quick' or sym[1] in (
               'share', 'vol')):
             continue   # 4-geo panels: n_designs alone / with a size range
-          for h in (None, 'second', 'second_k'):
+          for h in (None, 'second', 'second_k', 'second_k_empty'):
             name = 's-%s-%s-%s-e%d%s' % (panel, m, '+'.join(sym), i,
                                          '-' + h if h else '')
             out.append(dict(func='job', name=name, kwargs=dict(
